@@ -1397,6 +1397,9 @@ func (e *env) sweepChunks(stride int) {
 	if stride > 1 && total/60 > stride {
 		stride = total / 60
 	}
+	if stride == 1 && total > 400 {
+		stride = total / 400 // thorough: all positions of small files, about 400 of larger ones
+	}
 	for sg, seg := range e.segs {
 		type region struct {
 			lo, hi int
